@@ -27,17 +27,23 @@ Types == << [name |-> "@RecLast", n |-> RecLast], [name |-> "@RecFirst", n |-> R
             [name |-> "@Tree", n |-> Tree], [name |-> "@I", n |-> One], [name |-> "@Loop2", n |-> Loop2],
             [name |-> "@K", n |-> Lit(StrD(Sabc), <<R("minLength", NV(N1))>>)],
             [name |-> "@KQ", n |-> Lit(StrD(<<97, 34>>), <<>>)], [name |-> "@KB", n |-> Lit(StrD(<<34, 97, 92>>), <<>>)] >>     \* a"  and  "a\
-Env == [types |-> Types, enums |-> <<>>]
+Env == [types |-> Types, enums |-> <<[name |-> "@E", items |-> <<NumD(N1), StrD(Sa)>>]>>]
+NamedE == R("enum", [t |-> "name", s |-> "@E"])
 KQuote == <<97, 34, 98>>            \* a"b
 KBack  == <<97, 92, 98>>            \* a\b
 KNl    == <<97, 10, 98>>            \* a<LF>b
 KUni   == <<233, 8364>>             \* non-ASCII
-Roots == { Obj(<<P(KQuote, One)>>, <<>>), Obj(<<P(KBack, One), P(KNl, Two)>>, <<>>), Obj(<<P(KUni, Lit(StrD(KQuote), <<>>))>>, <<>>),
+KCtl   == <<97, 12, 98>>            \* a<FF>b : a control character without a short escape
+KCtl2  == <<1, 31>>
+Roots == { Obj(<<P(KQuote, One)>>, <<>>), Obj(<<P(KCtl, One)>>, <<>>), Obj(<<P(KCtl2, One), P(Ka, Lit(StrD(KCtl), <<>>))>>, <<>>), Obj(<<P(KBack, One), P(KNl, Two)>>, <<>>), Obj(<<P(KUni, Lit(StrD(KQuote), <<>>))>>, <<>>),
            Ref(<<"@RecLast">>, <<>>), Ref(<<"@RecFirst">>, <<>>), Ref(<<"@RecMid">>, <<>>), Ref(<<"@Tree">>, <<>>),
            Obj(<<P(Ka, Ref(<<"@RecLast">>, <<>>)), P(Kb, One)>>, <<>>), Arr(<<Ref(<<"@RecLast">>, <<>>), One>>, <<>>),
            Ref(<<"@Loop2">>, <<>>), Obj(<<P(Ka, Ref(<<"@Loop2">>, <<>>))>>, <<>>), Arr(<<Ref(<<"@Loop2">>, <<>>)>>, <<>>),
            Obj(<<SC("@K", One)>>, <<>>), Obj(<<SC("@K", One), P(Kx, Two)>>, <<>>), Obj(<<SC("@KQ", One)>>, <<>>), Obj(<<SC("@KB", One)>>, <<>>),
            Lit(NumD(N1), <<R("enum", [t |-> "list", items |-> <<[t |-> "val", v |-> NumD(N1)], [t |-> "val", v |-> StrD(Sa)]>>])>>),
+           \* a named enum rule (the one rule value written as a bare @name), last / first / only rule of its object
+           Obj(<<P(Ka, Lit(NumD(N1), <<OptR, NamedE>>)), P(Kb, Two)>>, <<>>), Obj(<<P(Ka, Lit(StrD(Sa), <<NamedE, OptR>>))>>, <<>>), Lit(NumD(N1), <<NamedE>>),
+           Arr(<<Lit(StrD(Sa), <<NamedE>>)>>, <<>>),
            Arr(<<>>, <<>>), Obj(<<>>, <<>>), Arr(<<Arr(<<>>, <<>>), Obj(<<>>, <<>>)>>, <<>>),
            Lit(StrD(<<97, 34, 92, 10, 233>>), <<>>), Lit(NumD(<<45, 48, 46, 53, 48>>), <<>>) }
 VARIABLE root
